@@ -25,8 +25,41 @@ SHRINK_PLAN = False
 
 
 def cases(seed, tier):
-    yield from streams.stream_cases(ID, seed, tier, kinds=["pause", "trip", "put", "put", "put", "put"])
+    base = None
+    for c in streams.stream_cases(ID, seed, tier, kinds=["pause", "trip", "put", "put", "put", "put"]):
+        if base is None:
+            base = c
+        yield c
     yield from history_cases(seed, tier)
+    yield from setup_cut_by_pause_cases(seed, tier, base)
+
+
+def setup_cut_by_pause_cases(seed, tier, base):
+    """A suspension is requested and, while its '_start_suspender' is being carried out (it has taken the monitors
+    away already), a pause strikes; the user resumes while the suspender's signal is still bad: the suspension comes
+    first, updates delivered after the resume are not reported until it has released."""
+    import copy
+
+    from sim import gen
+
+    if base is None:
+        return
+    rng = gen.rng_for(ID, seed, "cut-by-pause")
+    ci = next(i for i, s_ in enumerate(base["script"]) if s_.get("main"))
+    for j in range(2 if tier == "quick" else 5):
+        c = copy.deepcopy(base)
+        c["variant"] = f"suspension-setup-cut-by-pause-{j}"
+        st = rng.randrange(20, 90)
+        c["script"][ci]["inject"] = [
+            {"id": "t0", "at": {"step": st}, "do": "trip", "args": {"signal": "sigS", "value": 1, "release_value": 0, "after": rng.choice([0.3, 1.0])}},
+            {"id": "p0", "at": {"step": st + rng.randrange(5, 12)}, "do": "pause"},
+        ]
+        c["script"][ci]["decisions"] = [
+            {"do": "resume", "inject": [{"id": "u0", "at": {"step": rng.randrange(6, 16)}, "do": "put", "args": {"signal": "sig1", "value": 400 + j}}, {"id": "u1", "at": {"time": 2.0}, "do": "put", "args": {"signal": "sig1", "value": 410 + j}}]},
+            {"do": "resume"},
+        ]
+        c["script"][ci]["final"] = "resume"
+        yield c
 
 
 def history_cases(seed, tier):
@@ -91,6 +124,7 @@ def check(res):
     echo = 0
     overlapped = False
     redo_mids = set()
+    start_steps = [e.step for e in v.evs if e.kind == "msg" and e.d["cmd"] == "_start_suspender"]
     for e in v.evs:
         if e.kind == "call_begin" and e.d["api"] == "call":
             overlapped = False
@@ -133,6 +167,10 @@ def check(res):
         elif k == "dev" and d["dev"] == sig and d["method"] == "put":
             val = d["value"]
             if e.step == last_struct_step or state in ("pausing", "suspending", "aborting", "stopping", "halting"):
+                expect[val] = None
+            elif any(0 <= s_ - e.step <= 1 for s_ in start_steps):
+                # delivered in the very loop step (or the one before) in which a suspension starts - e.g. right after a
+                # resume that found the suspension waiting: either answer is legitimate
                 expect[val] = None
             elif monitored and state == "running" and suspended == 0:
                 expect[val] = 1
